@@ -466,6 +466,8 @@ def run(chk):
     rule_r3(chk)
     rule_r4(chk)
     rule_r5(chk)
+    from .. import variants
+    variants.apply(chk, "C06-R6", [("irispie.simultaneous._simulate", "Inlay.simulate")])
     chk.assumptions = [
         "that converged paths satisfy the equations and coincide with first order on linear models is numerical: NOT decided",
         "neqs solvers return (final_guess, ExitStatus)",
